@@ -706,6 +706,14 @@ func castArr(opts *options, v value) ([]value, Error) {
 	if sub, ok := v.(cfgSub); ok {
 		return sub.c.fields.array(), nil
 	}
+	// Looking at a dynamic value evaluates it, and the entries are evaluated
+	// again when they are unpacked: the look gets a scope level of its own
+	// and evaluates the value once.
+	parentFields := opts.activeFields
+	opts.activeFields = newFieldSet(parentFields)
+	defer func() { opts.activeFields = parentFields }()
+
+	evaluated := v
 	if ref, ok := v.(*cfgDynamic); ok {
 		unrefed, err := ref.getValue(opts)
 		if err != nil {
@@ -715,9 +723,10 @@ func castArr(opts *options, v value) ([]value, Error) {
 		if sub, ok := unrefed.(cfgSub); ok {
 			return sub.c.fields.array(), nil
 		}
+		evaluated = unrefed
 	}
 
-	l, err := v.Len(opts)
+	l, err := evaluated.Len(opts)
 	if err != nil {
 		ctx := v.Context()
 		return nil, raisePathErr(err, v.meta(), "", ctx.path("."))
